@@ -404,7 +404,11 @@ impl Opts {
     }
 }
 
-pub fn hang_limit_s() -> u64 {
+pub fn slow_ms() -> Option<u64> {
+    std::env::var("VERIF_SLOW_MS").ok().and_then(|v| v.parse().ok())
+}
+
+fn hang_limit_s() -> u64 {
     std::env::var("VERIF_HANG_S").ok().and_then(|s| s.parse().ok()).unwrap_or(30)
 }
 
@@ -756,8 +760,16 @@ pub fn run_check<C: Check>(c: &C, opts: &Opts) -> i32 {
                         cov.evaluations += 1;
                         *slot.lock().unwrap() = Some((idx, Instant::now(), scn.clone()));
                         let mut ctx = Ctx::new(&mut cov, findings);
+                        let t_run = Instant::now();
                         let r = exec_guarded(c, &scn, &mut ctx);
                         *slot.lock().unwrap() = None;
+                        if let Some(ms) = slow_ms() {
+                            // diagnostics only (stderr): which scenarios are expensive in wall-clock terms
+                            let el = t_run.elapsed().as_millis() as u64;
+                            if el >= ms {
+                                eprintln!("SLOW run={} {} ms", idx, el);
+                            }
+                        }
                         for h in ctx.known_hits.drain(..) {
                             if !hits.contains(&h) {
                                 hits.push(h);
